@@ -228,9 +228,10 @@ def st_case(draw):
         # an offset a multiple of 15 minutes from the series' own, so that no
         # float rounding is involved)
         akw = spec.get("start") or spec.get("end")
-        tot = akw["time_zone_hour"] * 60 + akw["time_zone_minute"] + \
-            15 * draw(st.sampled_from([0, 0, 4, -2, 1, -22, 96]))
-        tot = max(-5999, min(5999, tot))
+        own = akw["time_zone_hour"] * 60 + akw["time_zone_minute"]
+        tot = own + 15 * draw(st.sampled_from([0, 0, 4, -2, 1, -22, 96]))
+        if abs(tot) > 5999:     # outside +-99:59: stay in the series' offset
+            tot = own
         tzh = abs(tot) // 60 * (1 if tot >= 0 else -1)
         tz = (tzh, tot - tzh * 60)
         probes.append(G.respell(draw, cm, draw(st.sampled_from(ri)), tz=tz,
